@@ -173,6 +173,27 @@ func gz(b []byte) []byte {
 	return buf.Bytes()
 }
 
+// gzMembers compresses b as several concatenated gzip members (valid per RFC 1952: the
+// decompressed stream is the concatenation).
+func gzMembers(b []byte, n int) []byte {
+	if n <= 1 || len(b) < n {
+		return gz(b)
+	}
+	var out []byte
+	sz := len(b) / n
+	for i := 0; i < n; i++ {
+		lo, hi := i*sz, (i+1)*sz
+		if i == n-1 {
+			hi = len(b)
+		}
+		out = append(out, gz(b[lo:hi])...)
+	}
+	return out
+}
+
+// GzipMembers is the number of gzip members request builders use for compressed bodies.
+var GzipMembers = 1
+
 func MD5b64(b []byte) string {
 	h := md5.Sum(b)
 	return base64.StdEncoding.EncodeToString(h[:])
@@ -218,7 +239,7 @@ func ReqUploadMedia(b, name string, data []byte, m ObjMeta, conds map[string]str
 		r.Body = []byte{}
 	}
 	if gzipBody {
-		r.Body = gz(data)
+		r.Body = gzMembers(data, GzipMembers)
 		r.Header["Content-Encoding"] = "gzip"
 	}
 	return r
@@ -244,7 +265,7 @@ func ReqUploadMultipart(b, name string, data []byte, m ObjMeta, conds map[string
 	r := HTTPReq{Method: "POST", URL: "/upload/storage/v1/b/" + b + "/o?uploadType=multipart" + condQuery(conds),
 		Header: map[string]string{"Content-Type": "multipart/related; boundary=" + mw.Boundary()}, Body: buf.Bytes()}
 	if gzipBody {
-		r.Body = gz(r.Body)
+		r.Body = gzMembers(r.Body, GzipMembers)
 		r.Header["Content-Encoding"] = "gzip"
 	}
 	return r
@@ -265,7 +286,7 @@ func ReqResumableChunk(sessionURL string, data []byte, contentRange string, no30
 		r.Header["X-Guploader-No-308"] = "yes"
 	}
 	if gzipBody && len(data) > 0 {
-		r.Body = gz(data)
+		r.Body = gzMembers(data, GzipMembers)
 		r.Header["Content-Encoding"] = "gzip"
 	}
 	return r
